@@ -608,7 +608,7 @@ def kernel_prologue(repo, res):
     import textwrap
 
     from ..absint import Raised
-    from .genintegral import MARK, sample_kernel_text
+    from .genintegral import MARK, TABLE_DECL, sample_kernel_text
 
     for be in ("C", "numba"):
         for kind in ("integral", "expression"):
@@ -628,22 +628,26 @@ def kernel_prologue(repo, res):
                 if text.count(MARK) != 1:
                     res.fail(key, f"the {be} {kind} generator emits the kernel body {text.count(MARK)} times", loc)
                     continue
+                # the formatted body begins with the declaration of its constant table when the sample has one (where that lands: GEN-INTEGRAL)
+                body_at = text.index(MARK)
+                if TABLE_DECL in text and text.index(TABLE_DECL) + len(TABLE_DECL) == body_at:
+                    body_at = text.index(TABLE_DECL)
                 if be == "C":
                     m = re.search(rf"\bvoid\s+tabulate_tensor_{re.escape(obj)}\s*\([^)]*\)", text)
-                    if not m or m.end() > text.index(MARK):
+                    if not m or m.end() > body_at:
                         res.fail(key, f"the kernel function tabulate_tensor_{obj} does not enclose the generated body", loc)
                         continue
-                    between = text[m.end():text.index(MARK)].strip()
+                    between = text[m.end():body_at].strip()
                     after = text[text.index(MARK) + len(MARK):].lstrip()
                     if between != "{" or not after.startswith("}"):
                         res.fail(key, f"the C {kind} kernel has text between its signature and the generated body, or after it: `{between[:80]}` ... `{after[:20]}`: "
                                  "only the generated statements may run (A is accumulated into, inputs are not written)", loc)
                 else:
                     m = re.search(rf"(?m)^def\s+tabulate_tensor_{re.escape(obj)}\s*\([^)]*\)\s*:[ \t]*\n", text)
-                    if not m or m.end() > text.index(MARK):
+                    if not m or m.end() > body_at:
                         res.fail(key, f"the kernel function tabulate_tensor_{obj} does not enclose the generated body", loc, props=("C18",))
                         continue
-                    pro = text[m.end():text.index(MARK)]
+                    pro = text[m.end():body_at]
                     try:
                         tree = ast.parse(textwrap.dedent(pro))
                     except SyntaxError as e:
